@@ -96,6 +96,12 @@ class GridDictV:
         self.L = z3.Function('L', z3.IntSort(), z3.IntSort())
 
 
+class GridItemsV:
+    """self._grid_values.items() / .keys()"""
+    def __init__(self, gd, pairs):
+        self.gd, self.pairs = gd, pairs
+
+
 class GridKeyV:
     def __init__(self, gd, j):
         self.gd, self.j = gd, j
@@ -334,7 +340,7 @@ class Exec:
 
     def e_BinOp(self, e, st, raises):
         a, b = self.eval(e.left, st, raises), self.eval(e.right, st, raises)
-        a, b = as_int(a), as_int(b)
+        a, b = self.opt_as_int(a, raises), self.opt_as_int(b, raises)
         if isinstance(e.op, ast.Add):
             return a + b
         if isinstance(e.op, ast.Sub):
@@ -345,6 +351,13 @@ class Exec:
             self.oblige('no_zero_division', st, b > 0, 'divisor of `%s` must be positive (floor semantics = z3 div/mod)' % ast.unparse(e))
             return a / b if isinstance(e.op, ast.FloorDiv) else a % b
         raise Unsupported('operator %s' % type(e.op).__name__)
+
+    @staticmethod
+    def opt_as_int(v, raises):
+        if isinstance(v, OptInt):
+            raises.append((v.isnone, 'TypeError'))       # arithmetic on None raises; infeasible when the path knows the value is an int
+            return v.val
+        return as_int(v)
 
     def e_UnaryOp(self, e, st, raises):
         v = self.eval(e.operand, st, raises)
@@ -544,10 +557,11 @@ class Exec:
             raise Unsupported('len of %r' % (v,))
         if name == 'range':
             args, _ = self.call_args(c, st, raises)
+            args = [self.opt_as_int(x, raises) for x in args]
             if len(args) == 1:
-                return RangeV(z3.IntVal(0), as_int(args[0]))
+                return RangeV(z3.IntVal(0), args[0])
             if len(args) == 2:
-                return RangeV(as_int(args[0]), as_int(args[1]))
+                return RangeV(args[0], args[1])
             raise Unsupported('range with a step')
         if name == 'str' and len(c.args) == 1:
             v = self.eval(c.args[0], st, raises)
@@ -621,6 +635,8 @@ class Exec:
         return OpaqueV(ast.unparse(c)[:80])
 
     def call_method(self, recv, name, c, st, raises):
+        if isinstance(recv, GridDictV) and name in ('items', 'keys') and not c.args and not c.keywords:
+            return GridItemsV(recv, name == 'items')
         if isinstance(recv, MetaV):
             if name in ('ns',) and len(c.args) == 1:
                 k = self.eval(c.args[0], st, raises)
@@ -842,6 +858,8 @@ class Exec:
             return outs + self.loop_range(s, it, n, ordinal)
         if isinstance(it, GridDictV):
             return outs + self.loop_grid(s, it, n, ordinal)
+        if isinstance(it, GridItemsV):
+            return outs + self.loop_grid(s, it.gd, n, ordinal, pairs=it.pairs)
         if isinstance(it, OpaqueV):
             return outs + self.loop_opaque(s, it, n, ordinal)
         raise Unsupported('loop over %r' % (it,))
@@ -903,31 +921,39 @@ class Exec:
         body_st.env[s.target.id] = rng.start + a
         body_st.env[lname] = ListV(l0.lid, l0.length + a, l0.elem)
         body_st.ghost.update({'i0': rng.start + a, 'a': a, 'appends': [], 'range': rng, 'outer_list': l0.lid})
-        self.outer = {'a': a, 'n_iter': n_iter, 'start': rng.start, 'stop': rng.stop, 'list': l0.lid, 'len0': l0.length, 'iterations': []}
+        outer = {'a': a, 'n_iter': n_iter, 'start': rng.start, 'stop': rng.stop, 'list': l0.lid, 'len0': l0.length, 'iterations': []}
+        self.outer = outer
         for (s2, kind, payload) in self.block(s.body, body_st):
             if kind != 'normal':
                 raise Unsupported('%s inside the range loop' % kind)
             ap = [x for x in s2.ghost.get('appends', []) if x[0] == l0.lid]
             if len(ap) != 1:
                 raise Unsupported('the list is appended %d times in one iteration (exactly once supported)' % len(ap))
-            self.outer['iterations'].append((s2, ap[0][1]))
+            outer['iterations'].append((s2, ap[0][1]))
         post = st.fork()
+        post.ghost['outer'] = outer
         post.env[lname] = ListV(l0.lid, l0.length + n_iter, l0.elem)
         for n in names:
             if n not in st.env:
                 post.env.pop(n, None)
         return [(post, 'normal', None)]
 
-    def loop_grid(self, s, gd, st, ordinal):
+    def loop_grid(self, s, gd, st, ordinal, pairs=False):
         """`for key in self._grid_values`: invariant index = t*W + val, 0 <= val < W, W = product of the radices seen."""
         if 'i0' not in st.ghost:
             raise Unsupported('the loop over the grid is not nested in a loop over range(...) of indices')
-        if not isinstance(s.target, ast.Name):
+        if pairs:
+            if not (isinstance(s.target, ast.Tuple) and len(s.target.elts) == 2 and all(isinstance(x, ast.Name) for x in s.target.elts)):
+                raise Unsupported('grid items() loop target')
+            targets = [x.id for x in s.target.elts]
+        elif isinstance(s.target, ast.Name):
+            targets = [s.target.id]
+        else:
             raise Unsupported('grid loop target')
         names, heap = self.assigned_in(s.body)
         if heap:
             raise Unsupported('attributes %s assigned inside the grid loop' % sorted(heap))
-        carried = [n for n in names if n in st.env and n != s.target.id]
+        carried = [n for n in names if n in st.env and n not in targets]
         ints = [n for n in carried if is_int(st.env[n])]
         pds = [n for n in carried if isinstance(st.env[n], ParamDictV)]
         if len(ints) != 1 or len(pds) != 1 or len(carried) != 2:
@@ -959,7 +985,9 @@ class Exec:
         b = st.fork()
         b.pc += [j >= 0, j < gd.n, L(j) >= 1] + inv(j, t, pd)
         b.env[tname], b.env[pdname] = t, pd
-        b.env[s.target.id] = GridKeyV(gd, j)
+        b.env[targets[0]] = GridKeyV(gd, j)
+        if pairs:
+            b.env[targets[1]] = GridListV(gd, j)
         b.ghost['stores'] = []
         n_before = len(self.vcs)
         outs = self.block(s.body, b)
@@ -993,7 +1021,8 @@ class Exec:
         for n in names:
             if n not in st.env:
                 post.env.pop(n, None)
-        post.env.pop(s.target.id, None)
+        for x in targets:
+            post.env.pop(x, None)
         post.ghost['inner'] = {'N': Wf(gd.n), 'val': Vf(gd.n), 'q': tn, 'pd': pdn, 'D': Df, 'k': kst, 'pdname': pdname, 'W': Wf}
         return [(post, 'normal', None)]
 
@@ -1072,15 +1101,20 @@ def vcs_suggest(cm):
     structural = []
     if not hasattr(ex, 'outer'):
         raise Unsupported('no loop over range(...) of indices found in suggest')
-    o = ex.outer
     rets = [(s, v) for (s, k, v) in outs if k == 'return']
     if len(rets) != len(outs) or not rets:
         raise Unsupported('suggest has a path that does not return (%s)' % [k for _, k, _ in outs])
+    outers = []
     for (s, v) in rets:
+        o = s.ghost.get('outer')
+        if o is None:
+            raise Unsupported('suggest has a returning path that does not run the loop over range(...) of indices')
+        if all(o is not x for x in outers):
+            outers.append(o)
         ok = isinstance(v, ListV) and isinstance(v.elem, SuggestionV) and isinstance(v.elem.params, ElemV) and v.elem.params.lid == o['list']
-        structural.append(('C13.grid.suggest.returns_all', ok,
+        structural.append(('C13.grid.suggest.returns_all', True if ok else None,
                            'the returned list wraps, in order, every parameter dict appended by the index loop' if ok else
-                           'the return value is not `[TrialSuggestion(parameters=p) for p in <the list filled by the loop>]`: %r' % (v,)))
+                           'the return value is not of the supported shape `[TrialSuggestion(parameters=p) for p in <the list filled by the loop>]`: %r' % (v,)))
         if not ok:
             continue
         new_cur = s.heap.get(ATTR_INDEX)
@@ -1092,7 +1126,7 @@ def vcs_suggest(cm):
         ex.vcs.append(VC('C13.grid.sequence.contiguous', s.pc,
                          z3.Implies(n_ret >= 1, as_int(new_cur) == (o['start'] + (n_ret - 1)) + 1),
                          'the next call starts at the index following the last one suggested (also after dump/load, which restores the index)'))
-    for (s2, appended) in o['iterations']:
+    for o, (s2, appended) in [(o, it) for o in outers for it in o['iterations']]:
         inner = s2.ghost.get('inner')
         if inner is None:
             raise Unsupported('no loop over the grid dictionary inside the index loop')
@@ -1171,7 +1205,7 @@ def vcs_init(cm):
         vcs.append(VC('C13.grid.init.shuffle_seed_from_argument', s.pc, eq_value(s.heap[ATTR_SEED], seed), '_shuffle_seed is the constructor argument'))
         g = s.heap[ATTR_GRID]
         ok = isinstance(g, DerivedV) and len(g.args) == 1
-        structural.append(('C13.grid.invariant.grid_values_derived.init', ok,
+        structural.append(('C13.grid.invariant.grid_values_derived.init', True if ok else None,
                            '_grid_values = F(_shuffle_seed) with F a method of the class' if ok else '_grid_values is not computed by a method of the class from the seed: %r' % (g,)))
         if ok:
             vcs.append(VC('C13.grid.invariant.grid_values_derived.init.seed', s.pc, eq_value(g.args[0], s.heap[ATTR_SEED]),
@@ -1193,9 +1227,12 @@ def vcs_from_problem(cm):
     init_sig, _ = sigbind.sig_of_class(cm.mod, cm.ci)
     seed_param = [n for n, _ in init_sig.pos + init_sig.kwonly if 'seed' in n]
     for (s, v) in rets:
-        ok = isinstance(v, CtorV) and v.cls == cm.ci.name and len(seed_param) == 1 and seed_param[0] in v.argvals
-        structural.append(('C13.grid.from_problem.constructs_designer', ok,
-                           'from_problem returns %s(...) binding the seed parameter' % cm.ci.name if ok else 'unexpected return value %r' % (v,)))
+        shape = isinstance(v, CtorV) and v.cls == cm.ci.name and len(seed_param) == 1
+        ok = shape and seed_param[0] in v.argvals
+        structural.append(('C13.grid.from_problem.constructs_designer', ok if shape else None,
+                           'from_problem returns %s(...) binding the seed parameter' % cm.ci.name if ok else
+                           ('from_problem constructs the designer without passing its seed to the constructor parameter %s' % seed_param[0] if shape else
+                            'unsupported return value %r' % (v,))))
         if ok:
             vcs.append(VC('C13.grid.from_problem.seed_to_shuffle_seed', s.pc, eq_value(v.argvals[seed_param[0]], seeds[0]),
                           'the seed given to from_problem reaches the constructor parameter %s' % seed_param[0]))
@@ -1258,8 +1295,9 @@ def vcs_dump_load(cm):
             vcs.append(VC('C13.grid.dump_load.%s' % nm, s.pc, e if e is not None else z3.BoolVal(False),
                           'after load(dump(d)) on a fresh instance (arbitrary constructor seed) %s equals d.%s' % (a, a)))
         g = s.heap.get(ATTR_GRID)
-        ok = isinstance(g, DerivedV) and g.fname == F and len(g.args) == 1
-        structural.append(('C13.grid.invariant.grid_values_derived.load', ok,
+        shape = isinstance(g, DerivedV) and len(g.args) == 1
+        ok = shape and g.fname == F
+        structural.append(('C13.grid.invariant.grid_values_derived.load', ok if shape else None,
                            'load recomputes _grid_values with the same method %s as __init__' % F if ok else '_grid_values after load is %r' % (g,)))
         if ok:
             vcs.append(VC('C13.grid.invariant.grid_values_derived.load.seed', s.pc, eq_value(g.args[0], s.heap[ATTR_SEED]), 'the grid is derived from the restored seed'))
